@@ -72,6 +72,11 @@ func od2Eval(fn *ssa.Function, env od2Env) (res od2Val, ok bool, why string) {
 			switch x.Value.Kind() {
 			case constant.Int:
 				n, exact := constant.Int64Val(x.Value)
+				if sc > 1 && (n > 1 || n < -1) {
+					// a constant of the parameters' type beyond +-1: the representatives
+					// (-2 .. 2) no longer have a value on both sides of it
+					return od2Val{}, false
+				}
 				return od2Val{n: n * sc}, exact
 			case constant.Bool:
 				return od2Val{isBool: true, b: constant.BoolVal(x.Value)}, true
